@@ -5,6 +5,7 @@
    add_subcircuit / add_blackbox / fill_blackbox / strip_blackboxes. *)
 From stdpp Require Import strings gmap sets fin_sets.
 From CG Require Export Base.Cases Model.Compose6 Model.FastEval.
+From CG Require Model.Lint.
 Open Scope string_scope.
 
 Notation connmap := (list (string * list string)).
@@ -58,6 +59,10 @@ Definition holds_sub (P SC : Circuit) (name : string) (conns : connmap) (strip :
   | Fail e => bool_decide (e = ValueError) && (sub_clash P SC name || bad_key SC conns || negb (bool_decide (conns = [])))
   | Done =>
     negb (sub_clash P SC name) && negb (bad_key SC conns) &&
+    (* C20's clause for this producer: lint-clean arguments, dot-free instance name, every child input attached => lint-clean result *)
+    (negb (strip && Lint.lint_cleanb P && Lint.lint_cleanb SC && closedb gP && closedb gS && negb (Lint.has_dot name) &&
+           forallb (λ i, existsb (λ kv, bool_decide (kv.1 = i) && negb (bool_decide (kv.2 = []))) conns) (elements sin))
+     || Lint.lint_cleanb R) &&
     bool_decide (c_name R = c_name P) &&
     bool_decide (c_bbs R = kmap (pre name) (c_bbs SC) ∪ c_bbs P) &&
     bool_decide (inputs gR = inputs gP ∪ (if strip then ∅ else smap (pre name) sin)) &&
@@ -123,6 +128,8 @@ Definition holds_fill (P : Circuit) (inst : string) (SC R : Circuit) (oc : outco
     let ρ := pin_to_node inst d in
     let pins := smap (pin inst) (bb_in d ∪ bb_out d) in
     negb reject &&
+    (negb (Lint.lint_cleanb P && Lint.lint_cleanb SC && closedb gP && closedb gS && negb (Lint.has_dot inst) && bool_decide (bb_in d ## bb_out d))
+     || Lint.lint_cleanb R) &&                       (* C20's clause: filling a lint-clean parent with a lint-clean circuit stays lint-clean *)
     bool_decide (c_name R = c_name P) &&
     bool_decide (c_bbs R = kmap (pre inst) (c_bbs SC) ∪ delete inst (c_bbs P)) &&      (* the filled blackbox disappears *)
     bool_decide (inputs gR = inputs gP ∖ pins) && bool_decide (outputs gR = outputs gP ∖ pins) &&
